@@ -1,1 +1,56 @@
-Definition placeholder_c08 := 0.
+(* C08 -- Serializer output is lexically faithful or an error is reported (PARTIAL: the lexical layer). *)
+From Coq Require Import NArith List Bool Arith.
+From Verif Require Import Sx Str Tok.
+From Verif.Model Require Import CharRef TokBase Ser.
+From Verif.Spec Require Import TokSpec.
+From Verif.Proofs Require Import C08.
+Import ListNotations.
+Local Open Scope N_scope.
+
+(* TEXT can never turn into markup.  For EVERY text t and EVERY continuation: what Ser writes for a Characters
+   token outside raw-text elements, escape t, is read back by the WHATWG tokenizer (S_tok, data state) as
+   exactly the characters of t, and the tokenizer is in the data state again in front of whatever follows. *)
+Theorem c08_text_roundtrip : forall t rest c tm o cd b,
+  exists j, sp_iter j (mk_tk dataState (escape t ++ rest) c tm o cd b)
+            = Some (mk_tk dataState rest c tm (rev (singles t) ++ o) cd b).
+Proof. exact text_roundtrip. Qed.
+
+Theorem c08_ser_text_is_escape : forall o t, ser_token o false (TChars t) = Some (false, escape t, []).
+Proof. reflexivity. Qed.
+
+(* ATTRIBUTE VALUES can never end early.  For EVERY value v: whenever Ser quotes it (always when the mode is
+   always, the value is empty, or it contains a character of the class of the mode) with a quote character that is
+   U+0022 or U+0027, the text between the quotes is flat_map (escq q lt) v ... *)
+Theorem c08_quoted_form : forall o v, needs_quote o v = true ->
+  let v2 := if escape_lt o then replace_char 60 s_lt (replace_char 38 s_amp v) else replace_char 38 s_amp v in
+  let q := if best_quote o then if has_char 39 v2 && negb (has_char 34 v2) then 34
+                                else if has_char 34 v2 && negb (has_char 39 v2) then 39 else quote_char o
+           else quote_char o in
+  q = 34 \/ q = 39 ->
+  ser_attr_value o v = [q] ++ flat_map (escq q (escape_lt o)) v ++ [q].
+Proof. exact quoted_form. Qed.
+
+(* ... and S_tok, in the double- resp. single-quoted attribute value state, reads that text back as exactly v
+   (U+0000 as U+FFFD), takes the closing quote for the closing quote, and stands right behind it *)
+Theorem c08_double_quoted_value : forall lt v rest e n a0 an av sc tm o cd b,
+  exists j, sp_iter j (mk_tk attributeValueDoubleQuotedState (flat_map (escq 34 lt) v ++ 34 :: rest)
+                             (CTag e n (a0 ++ [(an, av)]) sc) tm o cd b)
+            = Some (mk_tk afterAttributeValueState rest (CTag e n (a0 ++ [(an, av ++ map nulfix v)]) sc) tm o cd b).
+Proof. exact dq_value_roundtrip. Qed.
+
+Theorem c08_single_quoted_value : forall lt v rest e n a0 an av sc tm o cd b,
+  exists j, sp_iter j (mk_tk attributeValueSingleQuotedState (flat_map (escq 39 lt) v ++ 39 :: rest)
+                             (CTag e n (a0 ++ [(an, av)]) sc) tm o cd b)
+            = Some (mk_tk afterAttributeValueState rest (CTag e n (a0 ++ [(an, av ++ map nulfix v)]) sc) tm o cd b).
+Proof. exact sq_value_roundtrip. Qed.
+
+(* non-vacuity *)
+Example c08_example :
+  escape [49;60;50;38;34] = [49;38;108;116;59;50;38;97;109;112;59;34] /\
+  ser_attr_value (mk_sopts 2 34 true true false true false false true) [97;34;38] = [39;97;34;38;97;109;112;59;39].
+Proof. split; vm_compute; reflexivity. Qed.
+
+(* PARTIAL.  Proved: the two lexical contexts through which text could become markup.  Not proved: unquoted
+   values, tag and attribute names, comments, doctypes, raw-text elements and the lift to whole streams
+   (errors = [] -> retok (Ser ts) = ts); these are decided on every run by re-tokenizing the real serializer's
+   output with S_tok (extracted) for generated trees x options -- a test, with seven listed findings. *)
